@@ -9,4 +9,7 @@ for n in 01 02 03 04 05 06 07 08 09 10 11 12 13 14 15 16 17 18 19 20; do
   echo "$out" | tail -1
   if [ "$code" != "0" ]; then fail=1; echo "$out" | grep -v "^\[" | cut -c1-300 | head -8; fi
 done
+# the abstract interpreter itself: differential test against CPython (a wrong concrete value is a soundness bug)
+python3-vt tools/interp_difftest.py 2>&1 | grep -v '^WARNING' | tail -1
+python3-vt tools/interp_difftest.py >/dev/null 2>&1 || { echo 'interpreter differential test: MISMATCH'; fail=1; }
 exit $fail
